@@ -70,8 +70,11 @@ def main():
     if os.environ.get('VERIF_SHARED_BUILDER'):
         from dznpy.adv_shell import Builder  # pylint: disable=import-outside-toplevel
         builder = Builder()
+    order = list(enumerate(cases))
+    if os.environ.get('VERIF_REVERSE_CASES'):
+        order.reverse()      # what was built before a case differs from process to process
     for pas in range(passes):
-        for idx, case in enumerate(cases):
+        for idx, case in order:
             if only is not None and idx != only:
                 continue
             try:
